@@ -37,6 +37,12 @@ def check(ctx, report):
     rejections.check(ctx, report, 'C06.R6', 'tls')
     from .c10 import variant_order
     variant_order(ctx, report, 'C06.R5')
+    # gmt_unix_time of the hello random and the SCT timestamps go through the shared timestamp primitives: what those write
+    # for an instant is part of the layout (tabulation shared with C11.R5)
+    from .c11 import flags_and_timestamps
+    report.rule('C06.R7', 'timestamp fields (gmt_unix_time, SCT): the primitive writes seconds / milliseconds since the epoch in UTC, width-sized sentinel')
+    flags_and_timestamps(ctx, report, R4='C06.R7', R5='C06.R7')
+    report.floor('C06.R7', 100, 'tabulated flag words and instants')
     report.floor('C06.R1', 150, 'layout comparisons')
     report.floor('C06.R2', 100, 'registry members')
 
